@@ -190,4 +190,33 @@ def run(db, tier):
         rep.check(not bad, "R-LIST-SEP", "fmt|%s" % cons, "%s:%d" % (g.file, arm["ln"]),
                   "printed without a trailing separator (grammar: SeparatedStrict)",
                   "%s is printed with fmt_comma_separated, which emits a trailing comma in block layout, but the grammar parses this list with SeparatedStrict" % cons)
+    # ---------------- every string literal is printed through the escaping formatter
+    rep.rule("R-STR-PRINT", "in the formatter the text of a string literal (`LitString.string`) is read only by <LitString as Format>::fmt, "
+                            "which escapes it; no other Format impl writes the raw text (paths in #pragma lines included)")
+
+    def _mentions_litstring(x):
+        if isinstance(x, list):
+            if len(x) >= 3 and x[0] == "f" and x[1] == "string" and "LitString" in str(x[2]):
+                return True
+            return any(_mentions_litstring(y) for y in x)
+        if isinstance(x, dict):
+            return any(_mentions_litstring(y) for y in x.values())
+        return False
+    n_fmt = 0
+    seen_escaper = False
+    for g in sorted(db.fns.values(), key=lambda x: x.id):
+        rid = re.sub(r"(::\{closure#\d+\})+$", "", g.id)
+        if g.gen or not (rid.startswith("fmt::") or rid.endswith("as fmt::Format>::fmt")):
+            continue
+        n_fmt += 1
+        reads = any(_mentions_litstring(st) for b in g.blocks for st in b["s"]) or any(_mentions_litstring(b["t"]) for b in g.blocks)
+        if rid == "<ast::LitString as fmt::Format>::fmt":
+            seen_escaper = seen_escaper or reads
+            continue
+        if reads:
+            rep.bad("R-STR-PRINT", rid + "|raw string", g.loc, "%s reads LitString.string directly: the text is printed without escaping, so a "
+                    "string containing a quote or backslash does not parse back to the same string" % rid)
+    rep.check(seen_escaper, "R-STR-PRINT", "LitString|escaper reads the text", "src/fmt.rs", "%d formatter functions scanned; only the escaping impl reads the raw text" % n_fmt,
+              "<LitString as Format>::fmt no longer reads the string")
+    rep.floor("formatter functions scanned", n_fmt, 60)
     return rep
